@@ -72,6 +72,19 @@ func writeEvent(w http.ResponseWriter, evt Event) (int, error) {
 // TODO(rfindley): consider a different API here that makes failure modes more
 // apparent.
 func scanEvents(r io.Reader) iter.Seq2[Event, error] {
+	return scanEventsMode(r, false)
+}
+
+// scanEventsStrict is like scanEvents, but treats the end of the stream as the
+// SSE specification does: an event that has not been terminated by a blank
+// line when the stream ends is incomplete and is discarded, not yielded. A
+// stream that was cut in the middle of an event must not surface the
+// truncated event (nor its id) to a client that is going to resume it.
+func scanEventsStrict(r io.Reader) iter.Seq2[Event, error] {
+	return scanEventsMode(r, true)
+}
+
+func scanEventsMode(r io.Reader, strictEOF bool) iter.Seq2[Event, error] {
 	reader := bufio.NewReader(r)
 
 	// TODO: investigate proper behavior when events are out of order, or have
@@ -121,6 +134,9 @@ func scanEvents(r io.Reader) iter.Seq2[Event, error] {
 			isEOF := errors.Is(err, io.EOF)
 
 			if len(line) == 0 {
+				if isEOF && strictEOF {
+					return // whatever is pending lacks its terminating blank line
+				}
 				if !yieldEvent() {
 					return
 				}
@@ -152,7 +168,9 @@ func scanEvents(r io.Reader) iter.Seq2[Event, error] {
 			}
 
 			if isEOF {
-				yieldEvent()
+				if !strictEOF {
+					yieldEvent()
+				}
 				return
 			}
 		}
